@@ -13,7 +13,7 @@ RULE = ("spend histories over the event alphabet {create addr / address-less / z
         "ALL sequences of <=4 (quick) / <=5 (thorough) events (the many-output tx has 260 outputs for <=3 events, 3 beyond), each in every split over <=3 blocks (independent lanes packed into one chain "
         "per split), x ranges (full, --start inside, --end inside) x 3 coins; plus random long histories of 50..5000 events with shared "
         "state; plus a transaction with 65,540 outputs (indices beyond 16 bits). Real unspentcsvdump runs; the row multiset (header first, no duplicates) and the completion totals must equal the model "
-        "UTXO set. distinct = event sequences x splits x range kinds (counted), random histories by (coin, size class)")
+        "UTXO set. One long run (more than 2^16 blocks in one process, three blk files) is compared with the model as well: thresholds of anything a run accumulates. distinct = event sequences x splits x range kinds (counted), random histories by (coin, size class)")
 
 COINS3 = ["bitcoin", "litecoin", "dogecoin"]
 
